@@ -88,3 +88,33 @@ Definition keygen_cli (prev : fstate) (d : dev) (key_file : bytes) : bool * fsta
 (** age-keygen writing to standard output (a pipe, a file, /dev/full). *)
 Definition keygen_stdout (d : dev) (key_file : bytes) : bool :=
   fits d (length key_file).
+
+(** * cmd/age/encrypted_keys.go: LazyScryptIdentity (age -d without -i)
+
+    It asks for the passphrase only when the header consists of exactly one
+    stanza and that stanza is a scrypt stanza; a scrypt stanza among others is
+    a fatal error before any prompt; the passphrase identity it then builds has
+    the default maximum work factor 22.  Result, whether it prompted, and the
+    work factors for which a key was derived. *)
+From Age Require Import Format Prims Recipients.
+
+Definition cli_max_work_factor : N := 22.
+
+Definition lazy_scrypt_unwrap (P : Prims) (ss : list stanza) (typed : option bytes)
+  : res bytes * bool * list N :=
+  if existsb (fun s => bytes_eqb (st_type s) ty_scrypt) ss && negb (Nat.eqb (length ss) 1)
+  then (Err EFatal, false, [])
+  else
+    match ss with
+    | [s] =>
+        if negb (bytes_eqb (st_type s) ty_scrypt) then (Err EIncorrect, false, [])
+        else
+          match typed with
+          | None => (Err EFatal, true, [])            (* the prompt failed *)
+          | Some [] => (Err EFatal, true, [])         (* empty passphrase *)
+          | Some pw =>
+              let (r, w) := unwrap P (IScrypt pw cli_max_work_factor) ss in
+              (match r with Err EIncorrect => Err EFatal | _ => r end, true, w)
+          end
+    | _ => (Err EIncorrect, false, [])
+    end.
